@@ -56,6 +56,12 @@ def _distance_strings_ok(tn):
 
 
 def run(ctx):
+    # the queries of a tree (its graph, distances, the common ancestor, the Newick text, the leaf list) read the tree: the node lists and
+    # child tuples are the same afterwards (`queue = self._leaves` popped empty would leave a tree without leaves)
+    from ..lints import readers_leave_object
+    readers_leave_object(ctx, TREE, "R5.queries-leave-the-tree", 4,
+                         {"as_graph", "get_distance", "to_newick", "get_leaves", "get_leaf_count", "get_indices", "distance_to", "lowest_common_ancestor",
+                          "as_binary", "copy", "__eq__", "__str__", "__len__", "is_leaf", "is_root"})
     s = ctx.src(TREE)
     # ---------------- R1 Newick -------------------------------------------------
     fn = s.func("TreeNode.from_newick")
